@@ -46,7 +46,7 @@ type c13Lookup struct {
 	Abs    bool   `json:"abs,omitempty"` // leading '\'
 	Carets int    `json:"c,omitempty"`   // number of leading '^' (walk/names); distance selector (up/upmulti: levels up - 1; deep: segments left out at the top)
 	Walk   []int  `json:"w,omitempty"`   // child selectors while walking down / name indices
-	Pfx    int    `json:"p,omitempty"`   // 0 canonical AML prefix bytes, 1 none (joined), 2 multi prefix always, 3 path minus its last segment
+	Pfx    int    `json:"p,omitempty"`   // 0 canonical AML prefix bytes, 1 none (joined), 2 multi prefix always, 3 path minus its last segment, 4/5 a 0x2e/0x2f byte between segments
 	Raw    []byte `json:"raw,omitempty"` // mode raw: the expression; other modes: trailing garbage
 	// Dmg > 0: the first 1-4 bytes of one segment are overwritten with a dual/multi-name prefix
 	// byte (bits 0-1: count - 1, bit 2: which byte, bits 3..: segment)
@@ -571,8 +571,18 @@ func (rn *c13Runner) buildExpr(l *c13Lookup) (int, []byte) {
 		e = append(e, 0x2f, byte(n+1))
 	}
 	base := len(e)
-	for _, s := range segs {
+	for i, s := range segs {
+		if i > 0 && l.Pfx >= 4 {
+			// a name-prefix byte between the segments (0x2e is also how a path is written in ASL
+			// source: \_SB_.PCI0); outside the harness grammar, judged by the relations that hold
+			// for any expression
+			e = append(e, byte(0x2e+l.Pfx-4))
+		}
 		e = append(e, s[:]...)
+	}
+	if l.Pfx >= 4 {
+		e = append(e, l.Raw...)
+		return scope, e
 	}
 	if l.Dmg > 0 && len(segs) > 0 {
 		j := (l.Dmg >> 3) % len(segs)
@@ -604,11 +614,23 @@ func (rn *c13Runner) lookup(when string, scope int, expr []byte, x c13Expr, prim
 	if pc := vlib.Catch(func() { got = tree.Find(uint32(scope), expr) }); pc.Panicked {
 		return vlib.Failf("%s: Find(scope %s, %q) crashed: %v%s", when, rn.show(scope), expr, pc, rn.dump())
 	}
+	// the same question again, at once, with the same buffer: the same answer (whatever the
+	// expression looks like; a lookup changes neither the tree nor what it was asked)
+	var again uint32
+	if pc := vlib.Catch(func() { again = tree.Find(uint32(scope), expr) }); pc.Panicked {
+		return vlib.Failf("%s: Find(scope %s, %q), asked a second time, crashed: %v%s", when, rn.show(scope), expr, pc, rn.dump())
+	}
+	if again != got {
+		return vlib.Failf("%s: Find(scope %s, %q) = %s the first time and %s when asked again at once with the same buffer (nothing was edited in between)%s", when, rn.show(scope), expr, c13ShowIdx(got), c13ShowIdx(again), rn.dump())
+	}
 	pre := "sweep:"
 	if primary {
 		pre = "lookup:"
 	}
 	if !x.ok {
+		if primary && got != InvalidIndex {
+			rn.res.bump("lookup:outside-the-grammar-but-resolved")
+		}
 		if got != InvalidIndex && !m.isLive(int(got)) {
 			return vlib.Failf("%s: Find(scope %s, malformed expression %q [%s]) = %d, which is neither a live object nor not-found%s", when, rn.show(scope), expr, x.why, got, rn.dump())
 		}
@@ -1105,7 +1127,7 @@ func c13GenLookup(t *rapid.T) *c13Lookup {
 			l.Carets = rapid.IntRange(1, 9).Draw(t, "manycarets")
 		}
 	}
-	pfx := func() { l.Pfx = rapid.SampledFrom([]int{0, 0, 0, 1, 1, 2, 3}).Draw(t, "pfx") }
+	pfx := func() { l.Pfx = rapid.SampledFrom([]int{0, 0, 0, 0, 0, 0, 1, 1, 1, 2, 2, 3, 3, 4, 5}).Draw(t, "pfx") }
 	switch l.Mode {
 	case "walk":
 		prefix()
@@ -1125,7 +1147,7 @@ func c13GenLookup(t *rapid.T) *c13Lookup {
 	case "deep":
 		l.Carets = rapid.IntRange(0, 40).Draw(t, "dist")
 		l.Abs = rapid.Bool().Draw(t, "abs")
-		l.Pfx = rapid.SampledFrom([]int{0, 0, 0, 2, 3, 1}).Draw(t, "pfx")
+		l.Pfx = rapid.SampledFrom([]int{0, 0, 0, 2, 3, 1, 4}).Draw(t, "pfx")
 	case "raw":
 		if rapid.IntRange(0, 2).Draw(t, "rawkind") == 0 {
 			l.Raw = rapid.SliceOfN(rapid.SampledFrom(c13RawBytes), 0, 14).Draw(t, "bytes")
